@@ -41,6 +41,7 @@ import Driver.Util
 import Driver.C04
 import Driver.C06
 import Driver.C07
+import Driver.C10
 import Driver.C11
 import Driver.C16
 import Driver.DYNBT
@@ -258,6 +259,33 @@ def runChatType (_ : List String) (s : Stream) : Option (String × Stream) :=
     | (.err, s') => ("err", s')
     | (.panic, s') => ("panic", s'))
 
+/-- `ReadPacket` × n on one stream; `none`: one of them returned an error -/
+def readFrames (t : Int) : Nat → Stream → List String → Res (List String) × Stream
+  | 0, s, acc => (.ok acc.reverse, s)
+  | n + 1, s, acc =>
+    let Z : ZLib := { deflate := fun _ => [], inflate := fun _ => none, zread := fun _ => none }
+    match unpack Z t { id := 0, data := [], cap := 0 } C07.stale s with
+    | (.ok q, s') => readFrames t n s' (s!"{hexOfNat 8 q.id.toNat}:{C07.dig q.data}" :: acc)
+    | (_, s') => (.err, s')
+
+/-- `conn.cipher`: `pre` frames through the plain `Conn.Reader` (C10's `connRead`: it IS the socket), `SetCipher`
+(C10's `connSetCipher`: the decrypting reader continues on the SAME residual socket stream), `post` frames -/
+def runConnCipher (p : List String) (s : Stream) : Option (String × Stream) :=
+  match kv p "cipher", (kv p "key").bind parseHex, (kv p "iv").bind parseHex, (kv p "t").bind C07.parseInt,
+        (kv p "pre").bind String.toNat?, (kv p "post").bind String.toNat? with
+  | some cn, some key, some iv, some t, some pre, some post =>
+    (C10.cipherOf cn key).map fun ci =>
+      match CFB8.connRead (fun s => readFrames t pre s []) s with
+      | (.ok got1, s1) =>
+        match CFB8.connSetCipher ci.E ci.bs iv s1 with
+        | .ok s2 =>
+          match readFrames t post s2 got1.reverse with
+          | (.ok got, s3) => (s!"ok pk={",".intercalate got}", s3)
+          | (_, s3) => ("err", s3)
+        | _ => ("panic", s1)
+      | (_, s1) => ("err", s1)
+  | _, _, _, _, _, _ => none
+
 /-- THE REGISTRY (readers): one line per decoder -/
 def decoders : List (String × Dec) := [
   ("varint", { run := runVar 32 }),
@@ -285,7 +313,8 @@ def decoders : List (String × Dec) := [
   ("chunk", { run := runChunk }),
   ("blockentity", { run := runBlockEntity }),
   ("chat.nbt", { run := runChatNBT }),
-  ("chat.type", { run := runChatType })
+  ("chat.type", { run := runChatType }),
+  ("conn.cipher", { run := runConnCipher })
 ]
 
 /-! ### compact descriptions of large payloads (mirrors of harness/c09.go) -/
@@ -370,8 +399,22 @@ def frag (args : List String) (obs : String) : Verdict :=
           let model := if mbase == base then m else s!"{m} [model-base={mbase}]"
           let eofish := tail == "eof" || tail == "eofd"
           let whole := k == input.length
+          -- NBT documents, independently of the decoder's own contiguous run: the format's reference reader
+          -- (Spec/NBT.lean, written from the format description) finds no complete document in the bytes that were
+          -- delivered — e.g. an array announces more elements than the source holds — so success is a silently
+          -- truncated result
+          let nbtFmt : Option Format :=
+            if name == "snbt" || name == "dynbt.net" || name == "nbtfield" then some .network
+            else if name == "dynbt.file" then some .file
+            else if name.startsWith "nbt." then some (if kv params "fmt" == some "file" then .file else .network)
+            else none
+          let truncated : Bool :=
+            match nbtFmt with
+            | some f => cls obs == "ok" && k ≤ 4096 && (input.take k).head? != some 0 && (parseDoc f (input.take k)).isNone
+            | none => false
           let spec : Option String :=
-            if cls base == "panic" || cls base == "" then none
+            if truncated then some s!"the {k} delivered bytes do not hold a complete NBT document (reference reader), but the decoder reports success"
+            else if cls base == "panic" || cls base == "" then none
             else if d.regular params then
               if cls base == "ok" then
                 match leftOf base with
